@@ -42,4 +42,13 @@ CHECKS = {
             {"part": "chain", "test": "TestChain", "quick": {"checks": 6000, "shards": 4}, "thorough": {"checks": 400000, "shards": 16, "timeout": 3000}},
         ],
     },
+    "C16": {
+        "pkg": "c16",
+        "technique": "stateful property-based testing (rapid) of SendBatch against a reference metric registry",
+        "level_text": "Random batch histories through the real parser and MetricStorage; Gather() output compared with a reference registry after every batch; invalid batches must be rejected without effect. Search, not proof.",
+        "level_note": "Trusted: reference registry in props/c16. A metric name has one type and is used either grouped or ungrouped; grouped label values are group-specific (one series never alive in two groups); empty label values equal absent labels.",
+        "parts": [
+            {"part": "metrics", "test": "TestMetrics", "quick": {"checks": 4000, "shards": 8}, "thorough": {"checks": 200000, "shards": 16, "timeout": 3000}},
+        ],
+    },
 }
